@@ -36,7 +36,42 @@ def gen_graph(rng, lib, max_nodes=8, cycles=True, task_links=True, tags=True):
             nd["task"] = None
         if tags and rng.random() < 0.25:
             nd["tags"] = [[rng.choice(["model", "lr", "k"]), rng.choice(TAGVALS)] for _ in range(rng.choice([1, 2]))]
+    add_pretask_repeats(rng, g)
     return g
+
+
+def add_pretask_repeats(rng, g):
+    """pre-task lists are plain lists (`add_pretasks` / `add_pretasks_from` do not de-duplicate): the same
+    lightweight task may occur several times in the list of one node and in the lists of several nodes, in any order"""
+    nodes = g["nodes"]
+    n0 = len(nodes)
+    lw = lambda: {"cls": "LW", "values": [["v", rng.choice([1, 2, 3])]], "meta": None, "pre": [], "init": [], "task": None}
+    hosts = [i for i, nd in enumerate(nodes) if nd["cls"] not in ("LW", "LW2")]
+    if not hosts:
+        return
+    r = rng.random()
+    if r < 0.18:      # a fresh pre-task listed twice (or three times) by one node only
+        i = rng.choice(hosts)
+        nodes.append(lw())
+        k = len(nodes) - 1
+        nodes[i]["pre"] += [k] * rng.choice([2, 2, 3])
+        if rng.random() < 0.4:   # ... around another one: [p, q, p]
+            nodes.append(lw())
+            nodes[i]["pre"].insert(1, len(nodes) - 1)
+    elif r < 0.30:    # two pre-tasks shared by two nodes in opposite orders, one of them repeated
+        nodes.append(lw())
+        nodes.append(lw())
+        p, q = len(nodes) - 2, len(nodes) - 1
+        i = rng.choice(hosts)
+        j = rng.choice(hosts)
+        nodes[i]["pre"] += [p, q, p] if rng.random() < 0.5 else [p, q]
+        if j != i:
+            nodes[j]["pre"] += [q, p, q] if rng.random() < 0.5 else [q, p]
+    elif r < 0.40:    # repeat an existing entry of some list
+        having = [i for i in hosts if nodes[i]["pre"]]
+        if having:
+            i = rng.choice(having)
+            nodes[i]["pre"].append(rng.choice(nodes[i]["pre"]))
 
 
 def gen_value(rng, g):
@@ -57,6 +92,7 @@ def graph_stats(lib, g):
     st["meta_false"] = sum(1 for nd in g["nodes"] if nd["meta"] is False)
     st["paths"] = sum(1 for nd in g["nodes"] for k, v in nd["values"] if isinstance(v, dict) and "p" in v)
     st["tags"] = sum(len(nd.get("tags", [])) for nd in g["nodes"])
+    st["prerepeat"] = sum(1 for nd in g["nodes"] if len(set(nd["pre"])) < len(nd["pre"]))
     return st
 
 
@@ -137,7 +173,7 @@ def install_local_findings(prop):
 
 
 def feature_key(st):
-    return "+".join(k for k in ("meta", "pre", "init", "taskout", "data", "paths", "tags", "cyclic") if st.get(k)) or "plain"
+    return "+".join(k for k in ("meta", "pre", "prerepeat", "init", "taskout", "data", "paths", "tags", "cyclic") if st.get(k)) or "plain"
 
 
 def make_cases(ctx, rng, kind, nlibs, per, tag):
@@ -156,6 +192,9 @@ def make_cases(ctx, rng, kind, nlibs, per, tag):
                 c["value"] = gen_value(rng, g) if rng.random() < 0.5 else None
                 c["save"] = rng.random() < 0.5
                 c["job"] = rng.random() < 0.6
+                c["gen2"] = rng.random() < 0.6
+                if rng.random() < 0.5:   # 2-3 generations through a mix of entry points
+                    c["routes"] = [rng.choice(["json", "state", "save", "state+mix"]) for _ in range(rng.choice([2, 2, 3]))]
             else:
                 if rng.random() < 0.35 and len(g["nodes"]) > 1:
                     c["first"] = rng.randrange(1, len(g["nodes"]))
